@@ -281,8 +281,346 @@ def extract_constants():
     return out
 
 
+# ---------------------------------------------------------------------------------------------------------------
+# pass 7: formulas and structure of the source, translated into Lean terms / tables
+# ---------------------------------------------------------------------------------------------------------------
+class _Tie(ValueError):
+    pass
+
+
+def _callname(c):
+    f_ = c.func
+    return f_.attr if isinstance(f_, ast.Attribute) else getattr(f_, "id", "?")
+
+
+def _to_lean(node, names, locals_, calls=None, vec=False):
+    """Python arithmetic expression -> Lean term.  `names`: python name -> Lean identifier; `locals_`: python local ->
+    its defining ast expression (inlined); `calls`: (function name, argument source) -> Lean identifier."""
+    calls = calls or {}
+    rec = lambda n, v=vec: _to_lean(n, names, locals_, calls, v)  # noqa: E731
+    if isinstance(node, ast.Name):
+        if node.id in names:
+            return names[node.id]
+        if node.id in locals_:
+            return "(" + rec(locals_[node.id]) + ")"
+        raise _Tie(f"unexpected name `{node.id}`")
+    if isinstance(node, ast.Constant) and isinstance(node.value, (int, float)) and not isinstance(node.value, bool):
+        q = Fr(str(node.value))
+        return f"({q.numerator} : Rat)" if q.denominator == 1 else f"(({q.numerator} : Rat) / {q.denominator})"
+    if isinstance(node, ast.UnaryOp) and isinstance(node.op, ast.USub):
+        return f"(V3.neg {rec(node.operand)})" if vec else f"(-{rec(node.operand)})"
+    if isinstance(node, ast.BinOp):
+        if vec:
+            if isinstance(node.op, ast.Sub):
+                return f"(V3.sub {rec(node.left)} {rec(node.right)})"
+            if isinstance(node.op, ast.Add):
+                return f"(V3.add {rec(node.left)} {rec(node.right)})"
+            raise _Tie("unexpected vector operator " + type(node.op).__name__)
+        ops = {ast.Add: "+", ast.Sub: "-", ast.Mult: "*", ast.Div: "/"}
+        if type(node.op) in ops:
+            return f"({rec(node.left)} {ops[type(node.op)]} {rec(node.right)})"
+        if isinstance(node.op, ast.Pow) and isinstance(node.right, ast.Constant) and isinstance(node.right.value, int) and 0 <= node.right.value <= 4:
+            return f"({rec(node.left)} ^ {node.right.value})"
+        raise _Tie("unexpected operator " + type(node.op).__name__)
+    if isinstance(node, ast.Subscript) and isinstance(node.value, ast.Name) and node.value.id == "box" and isinstance(node.slice, ast.Tuple) \
+            and len(node.slice.elts) == 2 and all(isinstance(e, ast.Constant) and e.value in (0, 1, 2) for e in node.slice.elts):
+        r_, c_ = (e.value for e in node.slice.elts)
+        return f"b.r{r_}.{'xyz'[c_]}"
+    if isinstance(node, ast.Call):
+        nm = _callname(node)
+        if nm in ("cross",) and len(node.args) == 2:
+            return f"(V3.cross {rec(node.args[0], False)} {rec(node.args[1], False)})"
+        if nm in ("vector_dot",) and len(node.args) == 2:
+            return f"(V3.dot {rec(node.args[0], False)} {rec(node.args[1], False)})"
+        key = (nm, ast.unparse(node.args[0]) if node.args else "")
+        if key in calls:
+            return calls[key]
+        raise _Tie(f"unexpected call `{ast.unparse(node)}`")
+    raise _Tie("unexpected expression `" + ast.unparse(node)[:60] + "`")
+
+
+def _assigns(f):
+    """name -> value expression of the simple assignments `name = expr` of a function (last one wins), in source order"""
+    out = {}
+    for n in ast.walk(f):
+        if isinstance(n, ast.Assign) and len(n.targets) == 1 and isinstance(n.targets[0], ast.Name):
+            out[n.targets[0].id] = n.value
+    return out
+
+
+def _defaults(f):
+    a = f.args
+    pos = a.posonlyargs + a.args
+    d = {}
+    for arg, dv in zip(pos[len(pos) - len(a.defaults):], a.defaults):
+        d[arg.arg] = ast.unparse(dv)
+    for arg, dv in zip(a.kwonlyargs, a.kw_defaults):
+        if dv is not None:
+            d[arg.arg] = ast.unparse(dv)
+    return d
+
+
+def _raises(f):
+    out = []
+    for n in ast.walk(f):
+        if isinstance(n, ast.Raise) and n.exc is not None:
+            e = n.exc.func if isinstance(n.exc, ast.Call) else n.exc
+            out.append((n.lineno, getattr(e, "id", getattr(e, "attr", "?"))))
+    return [x for _, x in sorted(out)]
+
+
+def _calls_in_order(f, wanted):
+    return [nm for _, _, nm in sorted((n.lineno, n.col_offset, _callname(n)) for n in ast.walk(f) if isinstance(n, ast.Call) and _callname(n) in wanted)]
+
+
+def extract_structure():
+    from common import paths
+    src = {m: open(os.path.join(paths.SRC, f"biotite/structure/{m}.py")).read() for m in ("geometry", "box", "transform")}
+    gt, bt, tt = (ast.parse(src[m]) for m in ("geometry", "box", "transform"))
+    o = {}
+    # ---- (A) the eight candidate shifts of _displacement_triclinic_box
+    f = _func(gt, "_displacement_triclinic_box")
+    asg = _assigns(f)
+    app = [n for n in ast.walk(f) if isinstance(n, ast.Call) and _callname(n) == "append" and n.args and isinstance(n.args[0], ast.List)]
+    if len(app) != 1 or len(app[0].args[0].elts) != 3:
+        raise _Tie("_displacement_triclinic_box: `periodic_shift.append([x, y, z])` not found")
+    nm = {"i": "i", "j": "j", "k": "k"}
+    loc = {k_: v_ for k_, v_ in asg.items() if k_ in ("x", "y", "z")}
+    o["triShift"] = [_to_lean(e, nm, loc) for e in app[0].args[0].elts]
+    o["triArg"] = _calls_in_order(f, {"argmin", "argmax"})
+    sd = asg.get("shifted_diffs")
+    if not (isinstance(sd, ast.BinOp) and isinstance(sd.op, ast.Add)):
+        raise _Tie("_displacement_triclinic_box: `shifted_diffs = diffs[...] + periodic_shift[...]` not found")
+    o["triDiffsFrom"] = _callname(asg["diffs"]) if isinstance(asg.get("diffs"), ast.Call) else "?"
+    sq = asg.get("sq_distance")
+    o["triKey"] = ast.unparse(sq) if sq is not None else "?"
+    # ---- (B) vectors_from_unitcell
+    f = _func(bt, "vectors_from_unitcell")
+    asg = _assigns(f)
+    arr = asg.get("box")
+    if not (isinstance(arr, ast.Call) and _callname(arr) == "array" and isinstance(arr.args[0], ast.List) and len(arr.args[0].elts) == 3):
+        raise _Tie("vectors_from_unitcell: `box = np.array([[...], [...], [...]])` not found")
+    nm = {"len_a": "la", "len_b": "lb", "len_c": "lc", "c_z": "cz"}
+    calls = {("cos", "alpha"): "ca", ("cos", "beta"): "cb", ("cos", "gamma"): "cg", ("sin", "gamma"): "sg"}
+    loc = {k_: v_ for k_, v_ in asg.items() if k_ in ("a_x", "b_x", "b_y", "c_x", "c_y")}
+    o["cellRows"] = [[_to_lean(e, nm, loc, calls) for e in row.elts] for row in arr.args[0].elts]
+    cz = asg.get("c_z")
+    if not (isinstance(cz, ast.Call) and _callname(cz) == "sqrt" and len(cz.args) == 1):
+        raise _Tie("vectors_from_unitcell: `c_z = np.sqrt(...)` not found")
+    o["cellCzSq"] = _to_lean(cz.args[0], nm, loc, calls)
+    kw = {k_.arg: ast.unparse(k_.value) for k_ in arr.keywords}
+    o["cellDtype"] = kw.get("dtype", "?")
+    # ---- (C) dihedral
+    f = _func(gt, "dihedral")
+    asg = _assigns(f)
+    ret = [n for n in ast.walk(f) if isinstance(n, ast.Return)][0].value
+    if not (isinstance(ret, ast.Call) and _callname(ret) == "arctan2" and len(ret.args) == 2 and all(isinstance(a_, ast.Name) for a_ in ret.args)):
+        raise _Tie("dihedral: `return np.arctan2(y, x)` not found")
+    nm = {"v1": "v1", "v2": "v2", "v3": "v3"}
+    loc = {k_: v_ for k_, v_ in asg.items() if k_ in ("n1", "n2", "x", "y")}
+    o["dihAtan2"] = [_to_lean(a_, nm, loc) for a_ in ret.args]           # first argument = y, second = x
+    o["dihNormed"] = sorted({ast.unparse(c.args[0]) for c in ast.walk(f) if isinstance(c, ast.Call) and _callname(c) == "norm_vector"})
+    # ---- (D) angle, (E) distance
+    f = _func(gt, "angle")
+    ret = [n for n in ast.walk(f) if isinstance(n, ast.Return)][0].value
+    dots = [c for c in ast.walk(ret) if isinstance(c, ast.Call) and _callname(c) == "vector_dot"]
+    if not (isinstance(ret, ast.Call) and _callname(ret) == "arccos" and len(dots) == 1):
+        raise _Tie("angle: `return np.arccos(... vector_dot(v1, v2) ...)` not found")
+    o["angleDot"] = [ast.unparse(a_) for a_ in dots[0].args]
+    o["angleNormed"] = sorted({ast.unparse(c.args[0]) for c in ast.walk(f) if isinstance(c, ast.Call) and _callname(c) == "norm_vector"})
+    clip = [c for c in ast.walk(ret) if isinstance(c, ast.Call) and _callname(c) == "clip"]
+    o["angleClip"] = [ast.unparse(a_) for a_ in clip[0].args[1:]] if clip else []
+    f = _func(gt, "distance")
+    ret = [n for n in ast.walk(f) if isinstance(n, ast.Return)][0].value
+    if not (isinstance(ret, ast.Call) and _callname(ret) == "sqrt" and isinstance(ret.args[0], ast.Call) and _callname(ret.args[0]) == "vector_dot"):
+        raise _Tie("distance: `return np.sqrt(vector_dot(diff, diff))` not found")
+    o["distanceDot"] = [ast.unparse(a_) for a_ in ret.args[0].args]
+    # ---- (F) displacement: the difference, the dispatch, the order of the steps
+    f = _func(gt, "displacement")
+    ifs = [n for n in ast.walk(f) if isinstance(n, ast.If) and isinstance(n.test, ast.Compare) and "shape" in ast.unparse(n.test)]
+    if len(ifs) != 1:
+        raise _Tie("displacement: the `if len(v1.shape) <= len(v2.shape)` branch not found")
+    br = ifs[0]
+
+    def diff_of(stmts):
+        a_ = [n for st in stmts for n in ast.walk(st) if isinstance(n, ast.Assign) and getattr(n.targets[0], "id", "") == "diff"]
+        if len(a_) != 1:
+            raise _Tie("displacement: `diff = ...` not found in a branch")
+        return _to_lean(a_[0].value, {"v1": "v1", "v2": "v2"}, {}, vec=True)
+    o["dispDiff"] = [diff_of(br.body), diff_of(br.orelse)]
+    disp_tab = []
+    for n in ast.walk(f):
+        if isinstance(n, ast.If) and isinstance(n.test, ast.Name) and n.test.id.startswith("orthogonality"):
+            t_ = [_callname(c) for st in n.body for c in ast.walk(st) if isinstance(c, ast.Call) and _callname(c).startswith("_displacement")]
+            e_ = [_callname(c) for st in n.orelse for c in ast.walk(st) if isinstance(c, ast.Call) and _callname(c).startswith("_displacement")]
+            disp_tab.append((n.lineno, t_[0] if len(t_) == 1 else "?", e_[0] if len(e_) == 1 else "?"))
+    o["dispDispatch"] = [(a_, b_) for _, a_, b_ in sorted(disp_tab)]
+    steps = [(n.lineno, _callname(n)) for n in ast.walk(f) if isinstance(n, ast.Call) and _callname(n) in ("coord_to_fraction", "is_orthogonal")]
+    steps += [(n.lineno, "mod") for n in ast.walk(f) if isinstance(n, ast.BinOp) and isinstance(n.op, ast.Mod)]
+    o["dispSteps"] = [x for _, x in sorted(steps)]
+    f = _func(gt, "_displacement_orthogonal_box")
+    o["orthoSteps"] = _calls_in_order(f, {"fraction_to_coord", "coord_to_fraction"})
+    # ---- (K) fractions
+    for fname, key in (("coord_to_fraction", "c2f"), ("fraction_to_coord", "f2c")):
+        f = _func(bt, fname)
+        ret = [n for n in ast.walk(f) if isinstance(n, ast.Return)][0].value
+        if not (isinstance(ret, ast.Call) and len(ret.args) == 2):
+            raise _Tie(f"{fname}: `return np.matmul(a, b)` not found")
+        o[key] = [_callname(ret)] + [ast.unparse(a_) for a_ in ret.args]
+    f = _func(bt, "move_inside_box")
+    o["moveSteps"] = _calls_in_order(f, {"coord_to_fraction", "fraction_to_coord"})
+    # ---- (L) is_orthogonal comparison, box_volume
+    f = _func(bt, "is_orthogonal")
+    cmp_ops = {type(c.ops[0]).__name__ for c in ast.walk(f) if isinstance(c, ast.Compare) and isinstance(c.comparators[0], ast.Name) and c.comparators[0].id == "tol"}
+    o["orthoCmp"] = sorted(cmp_ops)
+    combos = {type(n.op).__name__ for n in ast.walk(f) if isinstance(n, ast.BinOp) and isinstance(n.op, (ast.BitAnd, ast.BitOr))}
+    o["orthoCombine"] = sorted(combos)
+    f = _func(bt, "box_volume")
+    ret = [n for n in ast.walk(f) if isinstance(n, ast.Return)][0].value
+    o["volume"] = [_callname(c) for c in ast.walk(ret) if isinstance(c, ast.Call)]
+    # ---- (G) repeat_box_coord
+    f = _func(bt, "repeat_box_coord")
+    arr = [c for c in ast.walk(f) if isinstance(c, ast.Call) and _callname(c) == "array" and c.args and isinstance(c.args[0], ast.List)]
+    if len(arr) != 1:
+        raise _Tie("repeat_box_coord: `np.array([i, j, k])` not found")
+    o["repVec"] = [ast.unparse(e) for e in arr[0].args[0].elts]
+    sums = [c for c in ast.walk(f) if isinstance(c, ast.Call) and _callname(c) == "sum"]
+    o["repSumAxis"] = [ast.unparse(k_.value) for c in sums for k_ in c.keywords if k_.arg == "axis"]
+    cat = [c for c in ast.walk(f) if isinstance(c, ast.Call) and _callname(c) == "concatenate"]
+    o["repCatAxis"] = [ast.unparse(k_.value) for c in cat for k_ in c.keywords if k_.arg == "axis"]
+    first = _assigns(f).get("coords_for_boxes")
+    o["repFirst"] = [ast.unparse(e) for e in first.elts] if isinstance(first, ast.List) else ["?"]
+    tile = [c for c in ast.walk(f) if isinstance(c, ast.Call) and _callname(c) == "tile"]
+    if len(tile) != 1 or len(tile[0].args) != 2:
+        raise _Tie("repeat_box_coord: `np.tile(np.arange(n), count)` not found")
+    o["repCount"] = _to_lean(tile[0].args[1], {"amount": "amount"}, {}).replace(": Rat", ": Int")
+    o["repTypeCheck"] = [ast.unparse(c.args[1]) for c in ast.walk(f) if isinstance(c, ast.Call) and _callname(c) == "isinstance"]
+    o["repAdds"] = [type(n.op).__name__ for n in ast.walk(f) if isinstance(n, ast.AugAssign) and getattr(n.target, "id", "") == "temp_coord"]
+    # ---- (H) remove_pbc_from_coord
+    f = _func(bt, "remove_pbc_from_coord")
+    asg = _assigns(f)
+    ar = [c for c in ast.walk(asg["index_pairs"]) if isinstance(c, ast.Call) and _callname(c) == "arange"]
+    o["rpbcPairs"] = [[ast.unparse(a_) for a_ in c.args] for c in ar]
+    idc = asg.get("neighbour_disp")
+    o["rpbcDisp"] = [_callname(idc)] + sorted(f"{k_.arg}={ast.unparse(k_.value)}" for k_ in idc.keywords) if isinstance(idc, ast.Call) else ["?"]
+    cs = asg.get("absolute_disp")
+    o["rpbcCumsum"] = [_callname(cs)] + [f"{k_.arg}={ast.unparse(k_.value)}" for k_ in cs.keywords] if isinstance(cs, ast.Call) else ["?"]
+    bc = asg.get("base_coord")
+    o["rpbcBase"] = [_callname(bc), ast.unparse(bc.args[0])] if isinstance(bc, ast.Call) else ["?", ast.unparse(bc) if bc is not None else "?"]
+    sets = [(ast.unparse(n.targets[0]), ast.unparse(n.value)) for n in ast.walk(f) if isinstance(n, ast.Assign) and isinstance(n.targets[0], ast.Subscript)
+            and getattr(n.targets[0].value, "id", "") == "sanitized_coord"]
+    o["rpbcAssign"] = sorted(sets)
+    # ---- (I) remove_pbc
+    f = _func(bt, "remove_pbc")
+    loops = [n for n in ast.walk(f) if isinstance(n, ast.For) and getattr(n.target, "id", "") == "mask"]
+    if len(loops) != 1:
+        raise _Tie("remove_pbc: `for mask in molecule_masks` not found")
+    lp = loops[0]
+    o["rpLoopCalls"] = _calls_in_order(lp, {"remove_pbc_from_coord", "centroid", "move_inside_box"})
+    o["rpOutsideCalls"] = [c for c in _calls_in_order(f, {"remove_pbc_from_coord", "centroid", "move_inside_box"})][len(o["rpLoopCalls"]):]
+    o["rpShift"] = [ast.unparse(n.value) for n in ast.walk(lp) if isinstance(n, ast.AugAssign) and isinstance(n.op, ast.Add)]
+    o["rpSelection"] = [ast.unparse(n) for n in ast.walk(lp) if isinstance(n, ast.AugAssign) and isinstance(n.op, ast.BitAnd)]
+    o["rpMasks"] = _calls_in_order(f, {"get_molecule_masks", "get_chain_masks"})
+    rp_call = [c for c in ast.walk(lp) if isinstance(c, ast.Call) and _callname(c) == "remove_pbc_from_coord"]
+    o["rpArgs"] = [ast.unparse(a_) for a_ in rp_call[0].args] if rp_call else []
+    # ---- (J) the index wrappers and _call_non_index_function
+    tab = []
+    for wname in ("index_displacement", "index_distance", "index_angle", "index_dihedral"):
+        f = _func(gt, wname)
+        c = [c for c in ast.walk(f) if isinstance(c, ast.Call) and _callname(c) == "_call_non_index_function"]
+        if len(c) != 1 or len(c[0].args) < 2:
+            raise _Tie(f"{wname}: call of _call_non_index_function not found")
+        tab.append((wname, ast.unparse(c[0].args[0]), int(ast.unparse(c[0].args[1]))))
+    o["indexWrappers"] = tab
+    f = _func(gt, "_call_non_index_function")
+    first = f.body[1] if isinstance(f.body[0], ast.Expr) else f.body[0]
+    o["indexFirstCheck"] = [ast.unparse(first.test), _raises(first)[0] if _raises(first) else "?"] if isinstance(first, ast.If) else ["?", "?"]
+    gath = [ast.unparse(n.args[0]) for n in ast.walk(f) if isinstance(n, ast.Call) and _callname(n) == "append"]
+    o["indexGather"] = gath
+    # ---- (M) defaults, (N) exception classes
+    defs = []
+    for t_, names_ in ((gt, ("displacement", "distance", "angle", "dihedral", "_call_non_index_function")),
+                       (bt, ("repeat_box", "repeat_box_coord", "remove_pbc")),
+                       (tt, ("rotate_about_axis", "align_vectors", "orient_principal_components"))):
+        for fn_ in names_:
+            for a_, d_ in sorted(_defaults(_func(t_, fn_)).items()):
+                defs.append((fn_, a_, d_))
+    o["defaults"] = defs
+    rz = []
+    for t_, names_ in ((gt, ("displacement", "_call_non_index_function")), (bt, ("repeat_box", "repeat_box_coord", "remove_pbc")),
+                       (tt, ("translate", "rotate", "rotate_about_axis", "align_vectors", "orient_principal_components"))):
+        for fn_ in names_:
+            rz.append((fn_, _raises(_func(t_, fn_))))
+    o["raises"] = rz
+    return o
+
+
+def _ls(xs):
+    return "[" + ", ".join('"' + str(x).replace('"', "'") + '"' for x in xs) + "]"
+
+
+def gen_structure_lean(o):
+    L = []
+    L.append("/-! ## formulas and structure (pass 7) -/")
+    L.append("/-- the candidate shift of `_displacement_triclinic_box` for loop variables i, j, k -/")
+    L.append(f"def triShift (i j k : Rat) (b : Box) : Vec := ⟨{o['triShift'][0]}, {o['triShift'][1]}, {o['triShift'][2]}⟩")
+    L.append(f"def triSelect : List String := {_ls(o['triArg'])}")
+    L.append(f"def triDiffsFrom : String := \"{o['triDiffsFrom']}\"")
+    L.append(f"def triKey : String := \"{o['triKey']}\"")
+    L.append("/-- `vectors_from_unitcell`: the array literal with the locals inlined (`cos`/`sin` values and `c_z` as parameters) -/")
+    rows = ", ".join("⟨" + ", ".join(r) + "⟩" for r in o["cellRows"])
+    L.append(f"def cellBox (la lb lc ca cb cg sg cz : Rat) : Box := ⟨{rows}⟩")
+    L.append(f"def cellCzSq (la lb lc ca cb cg sg : Rat) : Rat := {o['cellCzSq']}")
+    L.append(f"def cellDtype : String := \"{o['cellDtype']}\"")
+    L.append("/-- `dihedral`: first and second argument of `arctan2`, locals inlined -/")
+    L.append(f"def dihArg1 (v1 v2 v3 : Vec) : Rat := {o['dihAtan2'][0]}")
+    L.append(f"def dihArg2 (v1 v2 v3 : Vec) : Rat := {o['dihAtan2'][1]}")
+    L.append(f"def dihNormed : List String := {_ls(o['dihNormed'])}")
+    L.append(f"def angleDot : List String := {_ls(o['angleDot'])}")
+    L.append(f"def angleNormed : List String := {_ls(o['angleNormed'])}")
+    L.append(f"def angleClip : List String := {_ls(o['angleClip'])}")
+    L.append(f"def distanceDot : List String := {_ls(o['distanceDot'])}")
+    L.append("/-- `displacement`: the difference in the two shape branches -/")
+    L.append(f"def dispDiffThen (v1 v2 : Vec) : Vec := {o['dispDiff'][0]}")
+    L.append(f"def dispDiffElse (v1 v2 : Vec) : Vec := {o['dispDiff'][1]}")
+    L.append("def dispDispatch : List (String × String) := [" + ", ".join(f'("{a}", "{b}")' for a, b in o["dispDispatch"]) + "]")
+    L.append(f"def dispSteps : List String := {_ls(o['dispSteps'])}")
+    L.append(f"def orthoSteps : List String := {_ls(o['orthoSteps'])}")
+    L.append(f"def coordToFractionForm : List String := {_ls(o['c2f'])}")
+    L.append(f"def fractionToCoordForm : List String := {_ls(o['f2c'])}")
+    L.append(f"def moveSteps : List String := {_ls(o['moveSteps'])}")
+    L.append(f"def orthoCmp : List String := {_ls(o['orthoCmp'])}")
+    L.append(f"def orthoCombine : List String := {_ls(o['orthoCombine'])}")
+    L.append(f"def volumeForm : List String := {_ls(o['volume'])}")
+    L.append(f"def repVec : List String := {_ls(o['repVec'])}")
+    L.append(f"def repSumAxis : List String := {_ls(o['repSumAxis'])}")
+    L.append(f"def repCatAxis : List String := {_ls(o['repCatAxis'])}")
+    L.append(f"def repFirst : List String := {_ls(o['repFirst'])}")
+    L.append(f"def repCount (amount : Int) : Int := {o['repCount']}")
+    L.append(f"def repTypeCheck : List String := {_ls(o['repTypeCheck'])}")
+    L.append(f"def repAdds : List String := {_ls(o['repAdds'])}")
+    L.append("def rpbcPairs : List (List String) := [" + ", ".join(_ls(x) for x in o["rpbcPairs"]) + "]")
+    L.append(f"def rpbcDisp : List String := {_ls(o['rpbcDisp'])}")
+    L.append(f"def rpbcCumsum : List String := {_ls(o['rpbcCumsum'])}")
+    L.append(f"def rpbcBase : List String := {_ls(o['rpbcBase'])}")
+    L.append("def rpbcAssign : List (String × String) := [" + ", ".join(f'("{a}", "{b}")' for a, b in o["rpbcAssign"]) + "]")
+    L.append(f"def rpLoopCalls : List String := {_ls(o['rpLoopCalls'])}")
+    L.append(f"def rpOutsideCalls : List String := {_ls(o['rpOutsideCalls'])}")
+    L.append(f"def rpShift : List String := {_ls(o['rpShift'])}")
+    L.append(f"def rpSelection : List String := {_ls(o['rpSelection'])}")
+    L.append(f"def rpMasks : List String := {_ls(o['rpMasks'])}")
+    L.append(f"def rpArgs : List String := {_ls(o['rpArgs'])}")
+    L.append("def indexWrappers : List (String × String × Nat) := [" + ", ".join(f'("{a}", "{b}", {c})' for a, b, c in o["indexWrappers"]) + "]")
+    L.append(f"def indexFirstCheck : List String := {_ls(o['indexFirstCheck'])}")
+    L.append(f"def indexGather : List String := {_ls(o['indexGather'])}")
+    L.append("def defaults : List (String × String × String) := [" + ", ".join(f'("{a}", "{b}", "{c}")' for a, b, c in o["defaults"]) + "]")
+    L.append("def raises : List (String × List String) := [" + ", ".join(f'("{a}", {_ls(b)})' for a, b in o["raises"]) + "]")
+    return L
+
+
 def gen_lean():
     k = extract_constants()
+    k2 = extract_structure()
 
     def ints(xs):
         return "[" + ", ".join(str(x) for x in xs) + "]"
@@ -317,6 +655,7 @@ def gen_lean():
         "def unitcellAngleDots : List (Nat × Nat) := [" + ", ".join(f"({a}, {b})" for a, b in k["unitcellAngleDots"]) + "]",
         "/-- the round-off clean-up of `vectors_from_unitcell` compares with a tolerance built from the SUM of the lengths -/",
         f"def unitcellTolUsesSum : Bool := {'true' if k['unitcellTolUsesSum'] else 'false'}",
+        ] + gen_structure_lean(k2) + [
         "end BiotiteModel.Gen.C15", ""]
     return {"BiotiteModel/Gen/C15.lean": "\n".join(body)}
 
